@@ -19,7 +19,7 @@ Your task: produce ONE realistic change to the non-test source code in {wt} (a p
   1. the repository still compiles (`go build ./...` in {wt}, and `go vet` of the touched packages),
   2. the EXISTING tests of every package you touched, and of packages that directly depend on the changed behaviour, still pass unedited (`go test -count=1 ./path/...`); you must not edit or delete existing tests,
   3. the breakage needs something SPECIFIC to manifest: a particular interleaving, a crash or fault at a particular point, a multi-step sequence of operations, an unusual input or configuration, or two cooperating sites that each look fine alone. It must NOT be something ordinary use or a trivial smoke test would expose at once. Do not change files guarded by the build tag `verif` (hooks_verif.go, export_verif.go, *_noverif.go) and do not remove hook calls such as simYield(...)/verifYield(...).
-  4. you provide a demonstration: a NEW test file (or small program) that FAILS with your change and PASSES on the unchanged code. Verify both directions yourself (use `git stash` / `git stash pop` or `git diff > x; git checkout -- .; ...; git apply x`).
+  4. you provide a demonstration: a NEW test file (or small program) that FAILS with your change and PASSES on the unchanged code. Verify both directions yourself with `git diff > /tmp/seeded-out/{tag}/x.diff; git apply -R /tmp/seeded-out/{tag}/x.diff; ...; git apply /tmp/seeded-out/{tag}/x.diff`. NEVER use `git stash` (the stash is shared between all worktrees of the repository and other people work in sibling worktrees concurrently). The machine is heavily loaded: wall-clock-sensitive existing tests (router TestDataPlaneRun, epic_*, bfd) may flake with and without your change; re-run them with `-parallel 2` before concluding.
 
 Deliverables, written to /tmp/seeded-out/{tag}/ :
   - patch.diff   : `git diff` of the source change ONLY (not including the demonstration file), applicable with `git apply` at the worktree's HEAD
